@@ -145,16 +145,10 @@ func GenH2(side string, maxConts int) *rapid.Generator[*H2Seq] {
 			}
 			block := append([]byte(nil), hbuf.Bytes()...)
 			conts := rapid.IntRange(0, maxConts).Draw(t, "continuations")
-			// cut the block into conts+1 fragments; CONTINUATION fragments may be empty, the HEADERS frame
-			// keeps at least one byte (MOSN's parseHeadersFrame rejects an empty fragment: a wire-compatibility
-			// finding of C18, not a segmentation matter)
+			// cut the block into conts+1 fragments; any fragment, also the one in the HEADERS frame, may be empty
 			cuts := []int{0}
 			for i := 0; i < conts; i++ {
-				lo := cuts[len(cuts)-1]
-				if i == 0 {
-					lo = 1
-				}
-				cuts = append(cuts, rapid.IntRange(lo, len(block)).Draw(t, "fragmentCut"))
+				cuts = append(cuts, rapid.IntRange(cuts[len(cuts)-1], len(block)).Draw(t, "fragmentCut"))
 			}
 			cuts = append(cuts, len(block))
 			nData := rapid.IntRange(0, 3).Draw(t, "nData")
